@@ -765,6 +765,11 @@ class Run:
             os.close(r)
             self.fork_w = w
             self.real_proc += 1
+            # reference values are recomputed in this process: across processes
+            # C12 only promises equality to rounding, so nothing computed by the
+            # parent may be compared bit for bit with what this process solves
+            self.model.clear()
+            self.model_step.clear()
             seed_tempfile((self.rec.get("seed", 0) + self.proc) & 0xFFFFFFFF)
             return
         os.close(w)
